@@ -58,6 +58,10 @@ STD_CELLS = [
     ("pool-2", "G2u", {"n_pool": 2}),
     ("capped-300", "G2u", {"max_iteration": 300}),
     ("prior-sampling", "G2u", {"prior_sampling": True}),
+    # the process dies right after the 2nd training that an empty pool triggered while a replacement was being drawn; with checkpoint_on_training such a training asks
+    # for a checkpoint in the middle of the iteration
+    ("killed-after-mid-iteration-training", "G2u", {"checkpoint_on_training": True, "checkpoint_on_iteration": True, "checkpoint_interval": 1, "_stop_after_mid_iteration_training": 2}),
+    ("killed-after-mid-iteration-training-time-schedule", "G2u", {"checkpoint_on_training": True, "checkpoint_on_iteration": False, "checkpoint_interval": 0.0, "_stop_after_mid_iteration_training": 1}),
     ("prior-sampling-checkpointing", "G2u", {"prior_sampling": True, "checkpointing": True}),
     # proposal parameter order differs from the model's (only the second parameter is named, the first is appended by default) on a model without exchange symmetry
     ("asym-bounds-dict-reordered", "G2ar", {}),
@@ -72,7 +76,8 @@ STD_CELLS = [
 QUICK_STD = ["default-G2u", "default-G4u", "nonuniform-analytic", "nonuniform-rejection-box-draws", "constrained-prior", "constrained-prior-leaky-uninformed", "flat-direction-prime-prior", "bimodal-default", "ties-nlive50", "ties-analytic", "gw-proposal", "clustering", "augmented-marginalised", "augmented", "augmented-3-dims", "augmented-2-dims-logit", "no-uninformed",
              "latent-nball", "latent-gaussian", "latent-flow", "radius-worst-point", "radius-min-max", "truncate-log-q", "accumulate-weights", "drawsize-small",
              "reparam-logit", "reparam-inversion-split", "reparam-inversion-duplicate", "reparam-angle", "flow-maf", "flow-nsf", "nlive-10", "nlive-300",
-             "memory", "reset-weights", "uninformed-50", "shrinkage-t", "pool-2", "capped-300", "prior-sampling", "prior-sampling-checkpointing", "asym-bounds-dict-reordered", "asym-reordered-reparam", "asym-reordered-logit-zscore", "logL-minus-2000", "logL-plus-900", "tolerance-loose"]
+             "memory", "reset-weights", "uninformed-50", "shrinkage-t", "pool-2", "capped-300", "prior-sampling", "prior-sampling-checkpointing", "asym-bounds-dict-reordered", "asym-reordered-reparam", "asym-reordered-logit-zscore", "logL-minus-2000", "logL-plus-900", "tolerance-loose",
+             "killed-after-mid-iteration-training", "killed-after-mid-iteration-training-time-schedule"]
 
 
 GEN_AXES = dict(
@@ -138,10 +143,13 @@ def std_cases(seed, tier, scratch, resume_fraction=3, names=None):
             kw["seed"] = int(rng.integers(1, 2**31 - 1))
             nlive = kw.get("nlive", 100)
             resume_at = None
-            if k % resume_fraction == 1 and not kw.get("prior_sampling") and not kw.get("n_pool"):
+            stop_mid = kw.pop("_stop_after_mid_iteration_training", None)
+            if k % resume_fraction == 1 and not kw.get("prior_sampling") and not kw.get("n_pool") and not stop_mid:
                 resume_at = int(nlive * rng.uniform(0.6, 2.5))
             out.append(dict(name=f"{nm}#{rep}", cell=nm, model=model, kwargs=kw, resume_at=resume_at, checkpoint_interval=int(max(5, nlive * 0.4)),
                             outdir=os.path.join(scratch, f"run-{k}"), _timeout=150))
+            if stop_mid:
+                out[-1]["stop_after_mid_iteration_training"] = stop_mid
             k += 1
     if tier == "thorough" and full_matrix:
         out += generated_std_cases(seed, 400, scratch)
